@@ -257,7 +257,7 @@ func selSweep(r *hx.Result, c *srv.Conn, drv *model.Driver, rng *rand.Rand, roun
 						Case: ccs})
 				}
 				// ---- correspondence: Model.CollSel on the model collection that went through the same history
-				req := append([]string{strings.ToLower(path) + "_sel", model.B(desc), strconv.Itoa(limit)}, hexps...)
+				req := append([]string{strings.ToLower(path) + "_sel", model.B(desc), strconv.Itoa(limit), "100000"}, hexps...)
 				mreply := drv.Ask(req...)
 				mcount, mids, mok := selModelReply(mreply)
 				if !mok || !selSame(got, mids) || mcount != cv.Int {
